@@ -325,7 +325,70 @@ func genFlow(t *Tape, name string) *Plan {
 	// subscriber first
 	g.Connect(0)
 	g.Subscribe(0)
-	if name == "C12" && t.Draw("c12.shape", 3) == 0 {
+	c12shape := -1
+	if name == "C12" {
+		c12shape = t.Draw("c12.shape", 4)
+	}
+	if c12shape == 1 {
+		// held-back-then-resumed skeleton: an MQTT 5 subscriber with a small Receive Maximum leaves deliveries
+		// unacknowledged, so that later messages of the same publisher are held back by flow control; it loses the
+		// connection and resumes the session while they are held; the publisher sends more before the subscriber
+		// says anything; then the subscriber acknowledges one by one. First transmissions stay in publish order.
+		first := len(g.plan.Ops)
+		rm := uint32(1 + t.Draw("c12.rm", 2))
+		fix := func(p *refcodec.Packet) {
+			p.ProtoVer = 5
+			p.CleanStart = false
+			var props refcodec.Props
+			for _, pr := range p.Props {
+				if pr.ID != refcodec.PReceiveMaximum && pr.ID != refcodec.PSessionExpiry {
+					props = append(props, pr)
+				}
+			}
+			p.Props = append(props, refcodec.Prop{ID: refcodec.PReceiveMaximum, Int: rm}, refcodec.Prop{ID: refcodec.PSessionExpiry, Int: 300})
+		}
+		for i := range g.plan.Ops {
+			if g.plan.Ops[i].Kind == "subscribe" && g.plan.Ops[i].Pkt != nil && len(g.plan.Ops[i].Pkt.Filters) > 0 {
+				g.plan.Ops[i].Pkt.Filters[0].Filter = "#"
+				g.plan.Ops[i].Pkt.Filters[0].Opts = g.plan.Ops[i].Pkt.Filters[0].Opts&^3 | 1
+				g.plan.Ops[i].Pkt.Props = nil
+				g.plan.Ops[i].Ver = 5
+			}
+			if g.plan.Ops[i].Kind == "connect" && g.plan.Ops[i].Pkt != nil {
+				fix(g.plan.Ops[i].Pkt)
+				g.plan.Ops[i].AckMode = 1
+			}
+		}
+		g.slots[0].ver = 5
+		g.Connect(1)
+		pub := func() {
+			pi := g.Publish(1)
+			g.plan.Ops[pi].Pkt.Topic = "t"
+			if g.plan.Ops[pi].Pkt.Qos == 0 {
+				g.plan.Ops[pi].Pkt.Qos = 1
+				g.plan.Ops[pi].Pkt.PacketID = g.pid(1)
+			}
+			g.plan.Ops[pi].Pkt.Qos = 1
+		}
+		for i, n := 0, int(rm)+1+t.Draw("c12.held", 2); i < n; i++ {
+			pub()
+		}
+		g.Drop(0)
+		ci := g.Connect(0)
+		fix(g.plan.Ops[ci].Pkt)
+		g.plan.Ops[ci].AckMode = 1
+		for i, n := 0, 1+t.Draw("c12.after", 2); i < n; i++ {
+			pub()
+		}
+		for i, n := 0, 2+t.Draw("c12.acks", 4); i < n; i++ {
+			g.add(Op{Kind: "ack", Slot: 0, N: 0})
+		}
+		g.add(Op{Kind: "advance", Ms: 10})
+		for i := first; i < len(g.plan.Ops); i++ {
+			g.plan.Ops[i].Concurrent = false
+		}
+	}
+	if c12shape == 0 {
 		// backlog skeleton: the subscriber stops reading, one publisher sends a burst on one topic (sizes on both
 		// sides of the write buffer), the subscriber reads again; the random tail follows
 		first := len(g.plan.Ops)
@@ -342,6 +405,47 @@ func genFlow(t *Tape, name string) *Plan {
 		}
 		g.add(Op{Kind: "unstall", Slot: 0})
 		g.add(Op{Kind: "advance", Ms: 10})
+		for i := first; i < len(g.plan.Ops); i++ {
+			g.plan.Ops[i].Concurrent = false
+		}
+	}
+	if name == "C10" && t.Draw("c10.shape", 4) == 0 {
+		// slow-acknowledgement skeleton: a persistent subscriber that is slow to read publishes a QoS 1/2 message of
+		// its own, with the identifier the broker would use next for a delivery to it; while the broker is still
+		// writing the acknowledgement another client publishes to the subscriber; then the subscriber reads again,
+		// leaves the delivery unacknowledged, loses the connection and resumes. The two identifier spaces are
+		// independent: the delivery is owed to the resumed session.
+		first := len(g.plan.Ops)
+		for i := range g.plan.Ops {
+			if g.plan.Ops[i].Kind == "subscribe" && g.plan.Ops[i].Pkt != nil && len(g.plan.Ops[i].Pkt.Filters) > 0 {
+				g.plan.Ops[i].Pkt.Filters[0].Filter = "#"
+				g.plan.Ops[i].Pkt.Filters[0].Opts = g.plan.Ops[i].Pkt.Filters[0].Opts&^3 | 1
+			}
+			if g.plan.Ops[i].Kind == "connect" && g.plan.Ops[i].Pkt != nil {
+				g.plan.Ops[i].Pkt.CleanStart = false
+				g.plan.Ops[i].AckMode = 1
+			}
+		}
+		g.Connect(1)
+		g.add(Op{Kind: "stall", Slot: 0})
+		own := g.Publish(0)
+		if g.plan.Ops[own].Pkt.Qos == 0 {
+			g.plan.Ops[own].Pkt.Qos = byte(1 + t.Draw("c10.ownqos", 2))
+			g.plan.Ops[own].Pkt.PacketID = g.pid(0)
+		}
+		for i, n := 0, 1+t.Draw("c10.nother", 2); i < n; i++ {
+			pi := g.Publish(1)
+			if g.plan.Ops[pi].Pkt.Qos == 0 {
+				g.plan.Ops[pi].Pkt.Qos = 1
+				g.plan.Ops[pi].Pkt.PacketID = g.pid(1)
+			}
+		}
+		g.add(Op{Kind: "unstall", Slot: 0})
+		g.add(Op{Kind: "advance", Ms: 10})
+		g.Drop(0)
+		ci := g.Connect(0)
+		g.plan.Ops[ci].Pkt.CleanStart = false
+		g.plan.Ops[ci].AckMode = 1
 		for i := first; i < len(g.plan.Ops); i++ {
 			g.plan.Ops[i].Concurrent = false
 		}
